@@ -12,8 +12,8 @@
        equation is k * f pointwise for some k > 0;
      one_sheet out f g : out = Ok [cone; plane]; -s is {f < 0 and g > 0},
        +s is {f > 0 or g < 0}, and the cone's zero set is that of f. *)
-From Coq Require Import List ZArith Bool Reals Lra.
-From T4V Require Import Base.Scalar C02.Vec C02.Spec C02.Model C02.Proofs C02.ProofsCards C02.ProofsP3 C02.ProofsAll C02.ProofsAxis C02.ProofsNum C02.ProofsIds C02.ProofsBand C02.ProofsCounts.
+From Coq Require Import List NArith ZArith Bool String Ascii Reals Lra.
+From T4V Require Import Base.Str Base.Scalar C02.Vec C02.Spec C02.Model C02.Proofs C02.ProofsCards C02.ProofsP3 C02.ProofsAll C02.ProofsAxis C02.ProofsNum C02.ProofsIds C02.ProofsBand C02.ProofsCounts C02.Text C02.ProofsText.
 Import ListNotations.
 Open Scope R_scope.
 
@@ -494,6 +494,69 @@ Theorem C02_numbered_ids_select_regions :
 Proof. exact numbered_ids_select_regions. Qed.
 Print Assumptions C02_numbered_ids_select_regions.
 
+(* ---------- from the card TEXT (C02/Text.v: Card.content, surfacecard.split,
+   to_float, get_surfaces, string_to_enum; tied by execution) ---------- *)
+(* the statement of C02_every_card_locus_sense starting from the text of the
+   card: if get_surfaces reads it as (flags, number, no TR number, type,
+   parameters) and the type names the mnemonic mn, then the conversion of the
+   text selects the negative- and positive-sense regions of the MCNP surface *)
+Theorem C02_text_every_card_locus_sense :
+  forall (txt bc : string) (name : N) (ty : string) (prm : list R) (mn : mnem) (ms : msurf (T:=R)),
+  parse_surface_card RS txt = Ok (bc, name, ""%string, ty, prm) ->
+  classify ty = TyMnem mn ->
+  mcnp_surface RS mn prm = Some ms -> admissible mn prm ->
+  exists c, convert_text RS txt = Ok c /\ forall p,
+    (neg_coll c p <-> m_f ms p < 0 /\ match m_sheet ms with None => True | Some g => 0 < g p end) /\
+    (pos_coll c p <-> 0 < m_f ms p \/ match m_sheet ms with None => False | Some g => g p < 0 end) /\
+    (exists s rest h, c = (s, 1%Z) :: rest /\ f_T4 RS (fst s) (snd s) = Some h /\
+                      (h p = 0 <-> m_f ms p = 0)).
+Proof. exact text_every_card. Qed.
+Print Assumptions C02_text_every_card_locus_sense.
+
+(* what the scanner reads: a card rendered as blanks, flags (plus, star), the digits
+   of its number, blanks, the mnemonic (letters, /; any case), blanks, the rest
+   is split into exactly these parts, with an empty TR group *)
+Theorem C02_split_surface_render : forall ws0 flags digs ws1 ty ws2 rest : string,
+  all_chars is_ws ws0 = true -> all_chars is_flag flags = true ->
+  all_chars is_digit digs = true -> digs <> ""%string ->
+  all_chars is_ws ws1 = true -> ws1 <> ""%string ->
+  all_chars is_type_char ty = true -> ty <> ""%string ->
+  all_chars is_ws ws2 = true -> ws2 <> ""%string ->
+  starts_not is_ws rest = true -> all_chars (fun c => negb (code c =? 10)%N) rest = true ->
+  split_surface (ws0 ++ flags ++ digs ++ ws1 ++ ty ++ ws2 ++ rest)%string =
+  Some ((flags ++ digs)%string, ""%string, ty, rest).
+Proof. exact split_surface_render. Qed.
+Print Assumptions C02_split_surface_render.
+
+(* what to_float reads: digits [. digits] [exponent] denotes mantissa * 10^(e -
+   number of fraction digits), for the exponent spellings e/E (float()), d/D and
+   the bare signed exponent (re_fortran); a leading sign negates; and the real
+   value of a numeral is +-m * 10^e *)
+Theorem C02_to_float_denotes :
+  (forall d1 d2 suffix e,
+     all_chars is_digit d1 = true -> all_chars is_digit d2 = true ->
+     (d1 <> ""%string \/ d2 <> ""%string) -> suffix_exp suffix = Some e ->
+     scan_real (d1 ++ String "."%char (d2 ++ suffix))%string =
+     Some (mkNum false (parse_digits (d1 ++ d2) 0) (e - Z.of_nat (String.length d2)))) /\
+  (forall d1 suffix e,
+     all_chars is_digit d1 = true -> d1 <> ""%string -> suffix_exp suffix = Some e ->
+     starts_not (fun c => (code c =? 46)%N) suffix = true ->
+     scan_real (d1 ++ suffix)%string = Some (mkNum false (parse_digits d1 0) e)) /\
+  (forall body n,
+     starts_not is_sign body = true -> scan_real body = Some n ->
+     scan_real (String "-"%char body) = Some (mkNum true (n_mant n) (n_exp n)) /\
+     scan_real (String "+"%char body) = Some (mkNum false (n_mant n) (n_exp n)) /\
+     n_neg n = false) /\
+  (forall neg m e,
+     num_value RS (mkNum neg m e) =
+     (if neg then -1 else 1) *
+     (if (0 <=? e)%Z then IZR (Z.of_N m) * IZR (10 ^ e) else IZR (Z.of_N m) / IZR (10 ^ (- e)))).
+Proof.
+  split; [exact scan_real_point|]. split; [exact scan_real_int|].
+  split; [exact scan_real_sign | exact num_value_real].
+Qed.
+Print Assumptions C02_to_float_denotes.
+
 (* ---------- Spec sanity (the Spec says what the manual says) ---------- *)
 Theorem C02_spec_sanity :
   (forall (p1 p2 p3 : vec (T:=R)) (A B C D : R),
@@ -543,6 +606,20 @@ Example C02_example_every_card :
   (exists ms, mcnp_surface RS M_P [0; 0; 1; 1; 0; 1; 0; 1; 1] = Some ms /\
               admissible M_P [0; 0; 1; 1; 0; 1; 0; 1; 1]).
 Proof. exact every_card_examples. Qed.
+
+(* a card text inside all hypotheses of C02_text_every_card_locus_sense
+   (flag, blanks, upper-case mnemonic, a Fortran spelling, a sheet selector) *)
+Example C02_example_text :
+  exists ms, m_sheet ms <> None /\ card_correct (convert_text RS "  *7  KZ 0 1.0d0  -1 "%string) ms.
+Proof. exact text_example. Qed.
+
+Example C02_example_spellings :
+  scan_real "6.40875-2" = Some (mkNum false 640875 (-7)) /\
+  scan_real "1.5d3" = Some (mkNum false 15 2) /\
+  scan_real "-1.5D+3" = Some (mkNum true 15 2) /\
+  scan_real "1.5+3" = Some (mkNum false 15 2) /\
+  scan_real "1.5d" = None /\ scan_real "--1" = None.
+Proof. vm_compute. repeat split. Qed.
 
 (* the model runs: K/Z 1 2 3 4 -1 at binary64 gives CONEZ + PLANEZ with side +1 *)
 Example C02_example_runs :
